@@ -1,6 +1,7 @@
 package main
 
 import (
+	"sync/atomic"
 	"bufio"
 	"encoding/json"
 	"flag"
@@ -199,6 +200,21 @@ func cmdCheck(args []string) int {
 	if t, ok := p.TimeoutMs[*tier]; ok {
 		tmo = t
 	}
+	// a runaway exploration must not take the machine down: give up (inconclusive) above 40 GiB of heap
+	go func() {
+		var ms runtime.MemStats
+		for {
+			time.Sleep(5 * time.Second)
+			runtime.ReadMemStats(&ms)
+			if ms.HeapAlloc > 24<<30 && atomic.LoadInt32(&abortAll) == 0 {
+				fmt.Printf("INCONCLUSIVE property=%s reason=memory (heap above 24 GiB: the rest of the exploration is abandoned; what was found so far is reported)\n", id)
+				atomic.StoreInt32(&abortAll, 1)
+			}
+			if ms.HeapAlloc > 48<<30 {
+				os.Exit(0) // last resort
+			}
+		}
+	}()
 	r := NewRunner(l, *workers, *solver, tmo)
 	budget := p.Budget[*tier]
 	if *budgetOverride > 0 {
@@ -465,6 +481,14 @@ func nativeReplay(l *Loaded, p *PropSpec, byLabel map[string]*vioReport, order [
 				cls = cls[:at]
 			}
 			rp.reproduced = r.out == cls || strings.HasPrefix(r.out, "crash:")
+			// an uncomparable value used as a map key: the runtime reports it from the hash function, the executor's
+			// map model from the key comparison - the same Go panic class for the property
+			uncomparable := func(c string) bool {
+				return c == "go-panic:comparing uncomparable" || c == "go-panic:hash of unhashable"
+			}
+			if uncomparable(cls) && uncomparable(r.out) {
+				rp.reproduced = true
+			}
 		case r.out == "timeout":
 			for _, h := range p.HangLabels {
 				if h == r.k {
